@@ -30,6 +30,9 @@ pub struct FileState {
     path: String,
     persister: Arc<PersisterKind>,
     encryptor: Option<Arc<EncryptorKind>>,
+    /// Entries have to reach the file in index order, also when commands that only hold the shared
+    /// system lock (purge) are journalled concurrently with others.
+    append_lock: tokio::sync::Mutex<()>,
 }
 
 impl FileState {
@@ -48,6 +51,7 @@ impl FileState {
             persister,
             encryptor,
             version: version.get_numeric_version().expect("Invalid version"),
+            append_lock: tokio::sync::Mutex::new(()),
         }
     }
 
@@ -299,11 +303,14 @@ impl State for FileState {
 
     async fn apply(&self, user_id: u32, command: EntryCommand) -> Result<(), IggyError> {
         debug!("Applying state entry with command: {command}, user ID: {user_id}");
+        let _append_guard = self.append_lock.lock().await;
         let timestamp = IggyTimestamp::now();
+        // The index is only taken for good once the entry is in the file (see below): a failed append
+        // must not leave a gap that makes the whole log unloadable.
         let index = if self.entries_count.load(Ordering::SeqCst) == 0 {
             0
         } else {
-            self.current_index.fetch_add(1, Ordering::SeqCst) + 1
+            self.current_index.load(Ordering::SeqCst) + 1
         };
         let term = self.term.load(Ordering::SeqCst);
         let current_leader = self.current_leader.load(Ordering::SeqCst);
@@ -357,7 +364,6 @@ impl State for FileState {
             command,
         );
         let bytes = entry.to_bytes();
-        self.entries_count.fetch_add(1, Ordering::SeqCst);
         self.persister
             .append(&self.path, &bytes)
             .await
@@ -368,6 +374,8 @@ impl State for FileState {
                     bytes.len()
                 )
             })?;
+        self.current_index.store(index, Ordering::SeqCst);
+        self.entries_count.fetch_add(1, Ordering::SeqCst);
         debug!("Applied state entry: {entry}");
         Ok(())
     }
